@@ -284,7 +284,11 @@ def step (s : St) : Ev → Option St
         some { s with gather := .interrupted,
                       rtask := fun f => if s.rtask f = .running then .cancelled else s.rtask f }
       else none
-  | .shutdownCall => if s.phase = .up then some { s with stopReq := true } else none
+  | .shutdownCall =>
+      -- on a runner that is not running (before accept, or after the run has ended in whatever
+      -- way) shutdown() finds everything stopped and returns at once: nothing changes
+      if s.phase = .up then some { s with stopReq := true }
+      else if s.phase.restartable then some s else none
   | .close f =>
       if s.phase = .up ∧ s.closing then
         some { s with latch := if s.latch f = .opened then upd' s.latch f .closed else s.latch }
